@@ -13,5 +13,6 @@ pub mod json;
 pub mod refs;
 pub mod settings;
 pub mod uni;
+pub mod wf;
 
 pub use ctx::{Ctx, Local, Tier};
